@@ -184,7 +184,7 @@ pub open spec fn upvalue_state_shaded(d: ObjUpvalueState) -> bool { match d { Ob
 //@  exempt class core class object: rooted in CoreClassStore for the interpreter's lifetime
 //@end
 
-//@trace file=yarel/src/object.rs type=ObjHashMap
+//@trace file=yarel/src/object.rs type=ObjHashMap props=C01,C12
 //@  also elements.keys keys_{m}(self.elements)
 //@  both: at body.start let ghost ks = self.elements.ks();
 //@  both: loop 0 iter it
